@@ -22,6 +22,7 @@ import (
 	"fmt"
 	"go/ast"
 	"go/build/constraint"
+	"go/format"
 	"go/importer"
 	"go/parser"
 	"go/printer"
@@ -439,10 +440,10 @@ func (t *translator) stmt(s ast.Stmt) string {
 
 type row struct {
 	recv, self, name, ret string
-	params               []string
-	body                 string
-	class                string // for the statistics comment
-	fn                   *ast.FuncDecl
+	params                []string
+	body                  string
+	class                 string // for the statistics comment
+	fn                    *ast.FuncDecl
 }
 
 func recvBase(fd *ast.FuncDecl) (base, self string) {
@@ -807,16 +808,17 @@ func classify(fd *ast.FuncDecl, ss []string) string {
 }
 
 func printRegistry(rows []row) {
-	fmt.Println("// Code generated by `api2ir -registry`; DO NOT EDIT.")
-	fmt.Println("// Every exported package function of jen that returns *Statement, by name. Reflection cannot")
-	fmt.Println("// enumerate package functions; c14.go compares this list with the source of the package it")
-	fmt.Println("// was built against at run time and fails if they differ.")
-	fmt.Println()
-	fmt.Println("package props")
-	fmt.Println()
-	fmt.Println(`import "github.com/dave/jennifer/jen"`)
-	fmt.Println()
-	fmt.Println("var c14Funcs = map[string]interface{}{")
+	var b bytes.Buffer
+	fmt.Fprintln(&b, "// Code generated by `api2ir -registry`; DO NOT EDIT.")
+	fmt.Fprintln(&b, "// Every exported package function of jen that returns *Statement, by name. Reflection cannot")
+	fmt.Fprintln(&b, "// enumerate package functions; c14.go compares this list with the source of the package it")
+	fmt.Fprintln(&b, "// was built against at run time and fails if they differ.")
+	fmt.Fprintln(&b)
+	fmt.Fprintln(&b, "package props")
+	fmt.Fprintln(&b)
+	fmt.Fprintln(&b, `import "github.com/dave/jennifer/jen"`)
+	fmt.Fprintln(&b)
+	fmt.Fprintln(&b, "var c14Funcs = map[string]interface{}{")
 	var ns []string
 	for _, r := range rows {
 		if r.recv == "" && r.ret == "*Statement" {
@@ -825,7 +827,12 @@ func printRegistry(rows []row) {
 	}
 	sort.Strings(ns)
 	for _, n := range ns {
-		fmt.Printf("\t%q: jen.%s,\n", n, n)
+		fmt.Fprintf(&b, "\t%q: jen.%s,\n", n, n)
 	}
-	fmt.Println("}")
+	fmt.Fprintln(&b, "}")
+	out, err := format.Source(b.Bytes())
+	if err != nil {
+		die("registry does not format: %v", err)
+	}
+	os.Stdout.Write(out)
 }
